@@ -21,6 +21,7 @@ use std::fs;
 use std::io::Write as _;
 use std::panic;
 use std::process::ExitCode;
+use std::range::Range;
 
 use naijascript::arena::{Arena, ArenaCow};
 use naijascript::diagnostics::{Diagnostic, Diagnostics, Label, Severity};
@@ -143,15 +144,23 @@ fn strip_ansi(s: &str) -> String {
     o
 }
 
-/// Renders one diagnostic alone and reads line, column, caret count and the label geometry back
-/// from the text (layout of render_diagnostic: header, location, gutter, 3 lines per cross-line
-/// label, source line, caret line, one line per same-line label).
-fn render_geometry(d: &Diagnostic<'_>, src: &str, arena: &Arena) -> Option<String> {
+/// Renders one diagnostic (span + label spans) alone and reads back from the text what
+/// render_diagnostic computed: line, column, caret count, the label geometry and the expanded
+/// source lines.  Layout: header, location, gutter, 3 lines per cross-line label (source line,
+/// underline, gutter), source line, caret line, one line per same-line label.
+/// Result: `<line> <col> <carets> S <col> <dashes>.. X <col> <dashes>.. L <hex line> <hex cross line>..`
+fn render_readback(
+    span: naijascript::diagnostics::Span,
+    label_spans: &[naijascript::diagnostics::Span],
+    severity: Severity,
+    src: &str,
+    arena: &Arena,
+) -> Option<String> {
     let mut one = Diagnostics::new(arena);
     let labels: Vec<Label<'_>> =
-        d.labels.iter().map(|l| Label { message: ArenaCow::Borrowed("L"), span: l.span }).collect();
+        label_spans.iter().map(|l| Label { message: ArenaCow::Borrowed("L"), span: *l }).collect();
     let n = labels.len();
-    one.emit(d.span, d.severity, d.code, d.message, labels);
+    one.emit(span, severity, "c", "m", labels);
     let text = one.render_ansi(src, "f");
     let text: &str = &text;
     // source lines may contain '\r' but never '\n'
@@ -175,12 +184,14 @@ fn render_geometry(d: &Diagnostic<'_>, src: &str, arena: &Arena) -> Option<Strin
         let marks = body.chars().skip(spaces).take_while(|c| *c == mark).count();
         Some((spaces + 1, marks))
     };
+    // the numbered gutter has the same byte length as the plain one
+    let after_gutter = |l: &str| -> Option<String> { l.as_bytes().get(gutter.len()..).map(hex) };
     let mut o = String::new();
     let caret = geometry(lines[3 + 3 * k + 1], '^')?;
     if caret.0 != col {
         return None;
     }
-    let _ = write!(o, "RD {line} {col} {}", caret.1);
+    let _ = write!(o, "{line} {col} {}", caret.1);
     o.push_str(" S");
     for i in 0..(n - k) {
         let g = geometry(lines[3 + 3 * k + 2 + i], '-')?;
@@ -191,7 +202,84 @@ fn render_geometry(d: &Diagnostic<'_>, src: &str, arena: &Arena) -> Option<Strin
         let g = geometry(lines[3 + 3 * i + 1], '-')?;
         let _ = write!(o, " {} {}", g.0, g.1);
     }
+    let _ = write!(o, " L {}", after_gutter(lines[3 + 3 * k])?);
+    for i in 0..k {
+        let _ = write!(o, " {}", after_gutter(lines[3 + 3 * i])?);
+    }
     Some(o)
+}
+
+fn render_geometry(d: &Diagnostic<'_>, src: &str, arena: &Arena) -> Option<String> {
+    let spans: Vec<_> = d.labels.iter().map(|l| l.span).collect();
+    let full = render_readback(d.span, &spans, d.severity, src, arena)?;
+    // the lexer block keeps the short form (geometry only); the text is compared through G lines
+    Some(format!("RD {}", full.split(" L ").next().unwrap_or("")))
+}
+
+/// `G <stage> <a> <b> <n> <c1> <d1> .. | <readback>`: one line per parser / resolver diagnostic
+/// with well-formed spans; the Python side hands the spans to the extracted Render.v and
+/// compares the read-back (geometry and source-line text).
+fn dump_geometry(stage: &str, src: &str, diags: &[Diagnostic<'_>], arena: &Arena, out: &mut String) {
+    for d in diags.iter().take(24) {
+        let spans: Vec<_> = d.labels.iter().map(|l| l.span).collect();
+        if !span_wf(src, d.span.start, d.span.end) || spans.iter().any(|l| !span_wf(src, l.start, l.end)) {
+            continue;
+        }
+        let mut head = format!("G {stage} {} {} {}", d.span.start, d.span.end, spans.len());
+        for l in &spans {
+            let _ = write!(head, " {} {}", l.start, l.end);
+        }
+        let g = panic::catch_unwind(panic::AssertUnwindSafe(|| render_readback(d.span, &spans, d.severity, src, arena)));
+        match g {
+            Ok(Some(s)) => {
+                let _ = writeln!(out, "{head} | R {s}");
+            }
+            Ok(None) => {
+                let _ = writeln!(out, "{head} | R unreadable");
+            }
+            Err(e) => {
+                let _ = writeln!(out, "PANIC render {}", panic_text(e));
+            }
+        }
+    }
+}
+
+/// `nsverif frontend --render <in> <out>`: the renderer alone on given spans.  Input lines
+/// `<hexsrc> <a> <b> <n> <c1> <d1> ...` (diagnostic span, n label spans); output `R <readback>`,
+/// `R unreadable` or `R PANIC <where> <message>`.
+fn run_render(input: &str, output: &str) -> ExitCode {
+    let text = fs::read_to_string(input).expect("read input");
+    let mut out = String::new();
+    let arena = Arena::new(64 * MEBI).expect("arena");
+    let mut last_hex = String::new();
+    let mut src = String::new();
+    for line in text.lines() {
+        let w: Vec<&str> = line.split_whitespace().collect();
+        if w.len() < 4 {
+            continue;
+        }
+        if w[0] != last_hex {
+            last_hex = w[0].to_string();
+            src = unhex(w[0]).unwrap_or_default();
+        }
+        let num = |i: usize| -> usize { w.get(i).and_then(|x| x.parse().ok()).unwrap_or(0) };
+        let span = Range::from(num(1)..num(2));
+        let labels: Vec<_> = (0..num(3)).map(|i| Range::from(num(4 + 2 * i)..num(5 + 2 * i))).collect();
+        let mark = arena.offset();
+        let g = panic::catch_unwind(panic::AssertUnwindSafe(|| render_readback(span, &labels, Severity::Error, &src, &arena)));
+        match g {
+            Ok(Some(s)) => {
+                let _ = writeln!(out, "R {s}");
+            }
+            Ok(None) => out.push_str("R unreadable\n"),
+            Err(e) => {
+                let _ = writeln!(out, "R PANIC {}", panic_text(e));
+            }
+        }
+        unsafe { arena.reset(mark) };
+    }
+    fs::write(output, out).expect("write output");
+    ExitCode::SUCCESS
 }
 
 fn one_case(src: &str, lex_dump: bool, out: &mut String) {
@@ -274,6 +362,7 @@ fn one_case(src: &str, lex_dump: bool, out: &mut String) {
         let mut o = String::new();
         let _ = writeln!(o, "PD {}", err.diagnostics.len());
         check_spans("parse", src, &err.diagnostics, &mut o);
+        dump_geometry("parse", src, &err.diagnostics, &arena, &mut o);
         let rendered = panic::catch_unwind(panic::AssertUnwindSafe(|| err.render_ansi(src, "f").len()));
         if let Err(e) = rendered {
             let _ = writeln!(o, "PANIC render {}", panic_text(e));
@@ -290,6 +379,7 @@ fn one_case(src: &str, lex_dump: bool, out: &mut String) {
         }
         let _ = writeln!(o, "RS {}", resolver.errors.diagnostics.len());
         check_spans("resolve", src, &resolver.errors.diagnostics, &mut o);
+        dump_geometry("resolve", src, &resolver.errors.diagnostics, &res_arena, &mut o);
         let rendered =
             panic::catch_unwind(panic::AssertUnwindSafe(|| resolver.errors.render_ansi(src, "f").len()));
         if let Err(e) = rendered {
@@ -311,7 +401,15 @@ fn one_case(src: &str, lex_dump: bool, out: &mut String) {
 }
 
 pub fn run(args: &[String]) -> ExitCode {
-    // frontend [--from N] [--nolex] <in> <out>
+    // frontend [--from N] [--nolex] <in> <out>   |   frontend --render <in> <out>
+    if args.first().map(String::as_str) == Some("--render") {
+        panic::set_hook(Box::new(|info| {
+            if let (Some(l), Ok(mut g)) = (info.location(), LAST_LOCATION.lock()) {
+                *g = format!("{}:{}", l.file(), l.line());
+            }
+        }));
+        return run_render(&args[1], &args[2]);
+    }
     let mut from = 0usize;
     let mut lex_dump = true;
     let mut files = Vec::new();
